@@ -23,8 +23,7 @@ inductive Lax where
   | sendOnReceiveOnly               -- send on a receive-only channel accepted
   | sameReflectType                 -- distinct Go types with the same reflect.Type (defined type vs underlying, struct S0 vs S1, []N vs []int, …)
   | interfaceToConcrete             -- an interface value used where a concrete type with (at least) its methods is required (itype.equals)
-  | constantOverflowWithinBitLength -- F03: |c| fits the bit length of a signed type but c is outside its range
-  | constantUnchecked               -- a numeric constant that the target type cannot represent is accepted (comparison, return)
+  | constantUnchecked               -- a numeric constant that the target type cannot represent is accepted (comparison whose conversion failed, return)
   | booleanLiteralAsValue           -- true / false accepted as a value of a non-boolean type
   | nilAsValue                      -- nil accepted (or a Go panic) where the type has no nil value
   | constantToInterface             -- a constant accepted as a value of a non-empty interface type
@@ -49,7 +48,6 @@ def Lax.name : Lax → String
   | .sendOnReceiveOnly => "send-on-receive-only"
   | .sameReflectType => "same-reflect-type"
   | .interfaceToConcrete => "interface-to-concrete"
-  | .constantOverflowWithinBitLength => "constant-overflow-within-bit-length"
   | .constantUnchecked => "constant-unchecked"
   | .booleanLiteralAsValue => "boolean-literal-as-value"
   | .nilAsValue => "nil-as-value"
@@ -113,7 +111,7 @@ def classifyAssign (x : Opnd) (t : Ty) : Lax :=
   | .bl _ => (match t with | .iface _ _ => .constantToInterface | _ => .booleanLiteralAsValue)
   | .uc _ _ => (match t with
       | .iface _ _ => .constantToInterface
-      | _ => if constGap x t then .constantOverflowWithinBitLength else .constantUnchecked)
+      | _ => .constantUnchecked)
   | .tv v | .tc v _ =>
     if v.isIface && !t.isIface then .interfaceToConcrete
     else if sameReflect v t then .sameReflectType
@@ -126,8 +124,8 @@ def classifyPair (x y : Opnd) : Lax :=
   match x.sh, y.sh with
   | .nil, _ | _, .nil => .nilAsValue
   | .bl _, _ | _, .bl _ => .booleanLiteralAsValue
-  | .uc _ _, .tv t | .uc _ _, .tc t _ => if t.isIface then .interfaceOperand else if constGap x t then .constantOverflowWithinBitLength else .constantUnchecked
-  | .tv t, .uc _ _ | .tc t _, .uc _ _ => if t.isIface then .interfaceOperand else if constGap y t then .constantOverflowWithinBitLength else .constantUnchecked
+  | .uc _ _, .tv t | .uc _ _, .tc t _ => if t.isIface then .interfaceOperand else .constantUnchecked
+  | .tv t, .uc _ _ | .tc t _, .uc _ _ => if t.isIface then .interfaceOperand else .constantUnchecked
   | .tv a, .tv b | .tv a, .tc b _ | .tc a _, .tv b | .tc a _, .tc b _ =>
     if a.isIface || b.isIface then .interfaceOperand
     else if sameReflect a b then .sameReflectType
@@ -222,6 +220,7 @@ def classifyCond (c : Opnd) : Lax :=
 def classifyConv (t : Ty) (x : Opnd) : Lax :=
   match x.sh with
   | .nil => .nilAsValue
+  | .tc _ _ => .typedConstantOperand
   | _ => classifyAssign x t
 
 def firstSome {α β : Type} (f : α → Option β) : List α → Option β
@@ -249,7 +248,7 @@ def classifyRet (T : TcFacts) (results : List STy) (vals : List (Shape × Opnd))
          if (do let b ← assignableToY T.ops x.ty (.s r) x.rv; if b then Res.ok () else .err) = (if assignableG x (.s r) then Res.ok () else .err)
          then go rs rest
          else (match x.sh with
-           | .uc _ _ => if constGap x (.s r) then .constantOverflowWithinBitLength else .constantUnchecked
+           | .uc _ _ => .constantUnchecked
            | _ => classifyAssign x (.s r)))
     | _, _ => .other
   go results vals
